@@ -41,7 +41,8 @@ def run(ctx):
                    "word's strobe; back-store shifted by busword; commit Cat(sc.r, backstore); re = registered strobe of the "
                    "last iterated word; device write is its own guarded assignment", min_sites=12)
     ctx.rule("R3", "fields: check_names and check_ordering_overlap run before the fields are used; field <-> register slice "
-                   "[offset:offset+size] in both directions; pulse fields gated by re; reset = OR of reset << offset", min_sites=7)
+                   "[offset:offset+size] in both directions; pulse fields gated by re; reset = OR of reset << offset; layout loop executed "
+                   "symbolically: running end = field offset + size on the explicit and the automatic path", min_sites=12)
     ctx.rule("R4", "placement: clash of fixed locations raises before filling; gathered items sorted by duid; one CSRBank per "
                    "object; bank address from address_map", min_sites=5)
     ctx.rule("R5", "atomic multi-word write commits on the last-iterated (last-address) word for each ordering", min_sites=2)
@@ -229,6 +230,50 @@ def run(ctx):
                                             for n in ast.walk(co))
     ctx.ob("R3", CSR, "CSRFieldAggregate.check_ordering_overlap", "offset below the running end raises; running end += size", ok,
            "" if ok else "overlap check changed", co)
+    # layout by symbolic execution of one loop iteration: on every non-raising path the running end after the field is the
+    # field's final offset plus its size (fields do not share bits), and the field has an offset
+    from .. import lin
+    loops = [n for n in co.body if isinstance(n, ast.For)]
+    ctx.need(len(loops) == 1 and norm(loops[0].target) == "field", "check_ordering_overlap: loop over the fields not found")
+    synth = ast.FunctionDef(name="<iteration>", args=ast.arguments(posonlyargs=[], args=[], kwonlyargs=[], kw_defaults=[], defaults=[]),
+                            body=loops[0].body, decorator_list=[], lineno=loops[0].lineno, col_offset=0)
+    npaths = 0
+    for p in P.feasible_paths(synth):
+        if p.end == "raise":
+            continue
+        npaths += 1
+        env = {"offset": {"o": 1}, "field.offset": {"F": 1}}
+        explicit = None
+        understood = True
+
+        def val(e):
+            f = lin.linform(e)
+            out = {}
+            for a_, c in f.items():
+                out = lin.add(out, lin.scale(env[a_], c) if a_ in env else {a_: c})
+            return out
+        for e in p.ev:
+            if e[0] == "test" and norm(e[1]) in ("field.offset is not None", "field.offset is None"):
+                explicit = e[2] if norm(e[1]).endswith("is not None") else (not e[2])
+            elif e[0] == "stmt" and isinstance(e[1], ast.Assign) and norm(e[1].targets[0]) in env:
+                env[norm(e[1].targets[0])] = val(e[1].value)
+            elif e[0] == "stmt" and isinstance(e[1], ast.AugAssign) and norm(e[1].target) in env and isinstance(e[1].op, (ast.Add, ast.Sub)):
+                d = val(e[1].value)
+                env[norm(e[1].target)] = lin.add(env[norm(e[1].target)], d if isinstance(e[1].op, ast.Add) else lin.scale(d, -1))
+            elif e[0] == "stmt" and not isinstance(e[1], (ast.If, ast.Pass, ast.Expr)):
+                understood = False
+        ctx.need(understood and explicit is not None, "check_ordering_overlap: iteration not understood (statement kinds / explicit-offset test)")
+        role = "explicit offset" if explicit else "automatic offset"
+        diff = lin.sub(env["offset"], env["field.offset"])
+        ok = diff == {"field.size": 1}
+        ctx.ob("R3", CSR, "CSRFieldAggregate.check_ordering_overlap", f"{role}: running end = field offset + field size", ok,
+               "" if ok else f"after a field with an {role} the running end is {lin.show(env['offset'])} and the field sits at "
+                             f"{lin.show(env['field.offset'])} (o = running end before, F = declared offset): the next field overlaps it / "
+                             f"overlaps are no longer rejected", loops[0])
+        okf = env["field.offset"] == ({"F": 1} if explicit else {"o": 1})
+        ctx.ob("R3", CSR, "CSRFieldAggregate.check_ordering_overlap", f"{role}: field placed at {'its declared offset' if explicit else 'the running end'}", okf,
+               "" if okf else f"field.offset = {lin.show(env['field.offset'])}", loops[0])
+    ctx.ob("R3", CSR, "CSRFieldAggregate.check_ordering_overlap", "explicit and automatic paths:present", npaths == 2, f"{npaths} non-raising paths", co)
     cn = cm_.method("CSRFieldAggregate", "check_names")
     ok = any(isinstance(n, ast.If) and norm(n.test) == "field.name in names" and any(isinstance(x, ast.Raise) for x in n.body) for n in ast.walk(cn))
     ctx.ob("R3", CSR, "CSRFieldAggregate.check_names", "duplicate field name raises", ok, "" if ok else "name check changed", cn)
